@@ -30,8 +30,9 @@ def r2_gates(run, tree):
 
 def r3_equality(run, tree):
     run.rule("C20.R3", "equality quantifier: equal iff same keys and no element of any member differs",
-             "D7 abstract cases", "", floor=9)
+             "D7 abstract cases + fold of the Datagroup class itself over insertion orders and key sets", "", floor=18)
     dg.check_eq_quantifier(run, tree)
+    cf.check_group_equality(run, tree)
 
 
 def r_conversion(run, tree):
